@@ -955,6 +955,55 @@ def rule_funcinit(chk, prog, tier):
     r.exhaustive = False
 
 
+# ------------------------------------------------------------------ C07.e address constants
+
+def rule_addrconst(chk, prog, tier):
+    r = chk.rule('C07.e', 'a static initialiser is emitted only for constants and address constants: the address of an object with static storage duration or of a function, optionally plus a constant; addresses of automatic or thread-local objects and non-constant expressions are diagnosed',
+                 floor=12, oracle='C11 6.6p7-9 (address constant: "an object of static storage duration")')
+    fn = prog.require_func('dataitem', 'qbe.c')
+    M = out_models()
+    cases = []
+    for dk, stg, ok in (('DECLOBJECT', 'SDSTATIC', True), ('DECLOBJECT', 'SDAUTO', False), ('DECLOBJECT', 'SDTHREAD', False), ('DECLFUNC', None, True)):
+        for shape in ('addr', 'addr+const'):
+            cases.append((dk, stg, shape, ok))
+    cases += [('DECLOBJECT', 'SDSTATIC', 'addr+addr', False), ('DECLOBJECT', 'SDSTATIC', 'addr-const', False), ('DECLOBJECT', 'SDSTATIC', 'ident', False), ('DECLOBJECT', 'SDSTATIC', 'call', False),
+              ('DECLOBJECT', 'SDSTATIC', 'deref', False)]
+    for dk, stg, shape, ok in cases:
+        def runner(it):
+            w = World(prog, it=it, target='x86_64-sysv')
+            def mkaddr(name):
+                sv = cmodel.val(name); sv.obj.symname = name
+                sd = Obj('decl', 'heap'); sd.f.update({('kind',): ev(prog, dk), ('u', 'obj', 'storage'): ev(prog, stg) if stg else UNINIT, ('value',): sv})
+                ident = w.mkexpr('EXPRIDENT', w.t('long'), u__ident__decl=Ptr(sd, ()))
+                return ident, w.mkexpr('EXPRUNARY', w.mkptr(w.t('long')), ident, op=ev(prog, 'TBAND'))
+            ident, ad = mkaddr('x')
+            k8 = w.mkexpr('EXPRCONST', w.t('ulong'), u__constant__u=8)
+            if shape == 'addr': e = ad
+            elif shape == 'addr+const': e = w.mkexpr('EXPRBINARY', w.mkptr(w.t('long')), None, op=ev(prog, 'TADD'), u__binary__l=ad, u__binary__r=k8)
+            elif shape == 'addr+addr': e = w.mkexpr('EXPRBINARY', w.mkptr(w.t('long')), None, op=ev(prog, 'TADD'), u__binary__l=ad, u__binary__r=mkaddr('y')[1])
+            elif shape == 'addr-const': e = w.mkexpr('EXPRBINARY', w.mkptr(w.t('long')), None, op=ev(prog, 'TSUB'), u__binary__l=ad, u__binary__r=k8)
+            elif shape == 'ident': e = ident
+            elif shape == 'call': e = w.mkexpr('EXPRCALL', w.t('long'), ident)
+            else: e = w.mkexpr('EXPRUNARY', w.t('long'), ad, op=ev(prog, 'TMUL'))
+            try:
+                it.call(fn, [e, 8])
+            except Terminal as t_:
+                if t_.what == 'fatal' and shape == 'deref': raise Terminal('error', 'fatal: ' + str(t_.detail))     # an internal-error exit is still a rejection
+                raise
+            return ''.join(e_[1] for e_ in it.events if e_[0] == 'text')
+        runs = explore(prog, runner, M, max_runs=4, on_unsupported='keep')
+        if len(runs) != 1 or runs[0].outcome == 'unsupported':
+            raise AnalysisBroken('dataitem %s/%s/%s: %s' % (dk, stg, shape, runs[0].detail if runs else 'no run'))
+        run = runs[0]
+        key = 'addrconst:%s,%s,%s' % (dk[4:].lower(), (stg or '-')[2:].lower(), shape)
+        if ok:
+            want = '$x' + (' + 8' if shape == 'addr+const' else '')
+            r.instance(run.outcome == 'return' and run.value == want, key, 'qbe.c:%s' % fn.get('line'), 'expected `%s`, got %s %s' % (want, run.outcome, run.value if run.outcome == 'return' else run.detail))
+        else:
+            r.instance(run.outcome.startswith('terminal'), key, 'qbe.c:%s' % fn.get('line'), 'not an address constant: must be diagnosed; emitted `%s`' % (run.value if run.outcome == 'return' else ''))
+    r.exhaustive = True
+
+
 def run(chk, tier):
     prog = facts.programs()['cproc-qbe']
     chk.guard('C07.a', lambda: rule_parseinit(chk, prog, tier))
@@ -962,3 +1011,4 @@ def run(chk, tier):
     from props import c02
     chk.guard('C07.d', lambda: c02.rule_initadd(chk, prog, tier, 'C07.d', bits=True))
     chk.guard('C07.c', lambda: rule_funcinit(chk, prog, tier))
+    chk.guard('C07.e', lambda: rule_addrconst(chk, prog, tier))
